@@ -199,7 +199,8 @@ def run_fold(spec, comp):
     ev = dict(op="fold", s=list(spec["s"]), indent=spec["indent"],
               maxline=spec["maxline"], lp=spec["lp"], endsp=spec["endsp"],
               avoid=bool(spec["avoid"]), srctok=hextok("str", src))
-    lit = {"has": True, "q": "Q", "elems": lit_elems([spec["s"]]),
+    lit = {"has": True, "kind": "string", "clause": True, "q": "Q",
+           "elems": lit_elems([spec["s"]]),
            "out": ["U"], "flat": ["U"], "gotok": False, "got": []}
     ev["lit"] = lit
     info = dict(source=src)
@@ -771,8 +772,8 @@ def elems_of(obj, declflv):
 # running one object spec
 # ----------------------------------------------------------------------------
 
-NO_LIT = {"has": False, "q": "Q", "elems": [], "out": [], "flat": [],
-          "gotok": False, "got": []}
+NO_LIT = {"has": False, "kind": "", "clause": False, "q": "Q", "elems": [],
+          "out": [], "flat": [], "gotok": False, "got": []}
 
 
 def _region(text, q, is_array):
@@ -787,68 +788,17 @@ def _region(text, q, is_array):
     return classes_of_text(text[i:j + 1])
 
 
-def single_literal(spec):
-    """If the object holds exactly ONE non-NULL string / char16 typed value
-    made of plain strings (scalar or array) and no other quoted text:
-    (type, [classes or None per element], is_array); else None."""
-    found = []
-
-    def visit(v, typ):
-        if v is None:
-            return
-        vals = v if isinstance(v, list) else [v]
-        if any(x is not None and ("d" in x or "ref" in x or "inst" in x)
-               for x in vals):
-            found.append(("other", None, False))
-        elif typ in ("string", "char16"):
-            found.append((typ, [None if x is None else x["s"] for x in vals],
-                          isinstance(v, list)))
-
-    def quals(qs):
-        for q in qs:
-            visit(q["val"], q["type"])
-            if q["decl"].get("dflt"):
-                found.append(("other", None, False))
-
-    k = spec["k"]
-    if k == "class":
-        quals(spec["quals"])
-        for p in spec["props"]:
-            visit(p["val"], p["type"])
-            quals(p["quals"])
-        for m in spec["meths"]:
-            quals(m["quals"])
-            for a in m["params"]:
-                quals(a["quals"])
-    elif k == "inst":
-        for p in spec["props"]:
-            visit(p["val"], p["type"])
-    else:
-        visit(spec["val"], spec["type"])
-    if len(found) == 1 and found[0][0] in ("string", "char16"):
-        return found[0]
-    return None
+QUOTED_TYPES = ("string", "char16", "datetime", "reference")
 
 
-def _find_compiled(conn, ns, orig):
-    if isinstance(orig, CIMClass):
-        return conn.classes[ns][orig.classname]
-    if isinstance(orig, CIMQualifierDeclaration):
-        return conn.qualifiers[ns][orig.name]
-    insts = conn.instances.get(ns, [])
-    if len(insts) != 1:
-        return "UNCLASSIFIED: %d instances compiled" % len(insts)
-    return insts[0]
-
-
-def _literal_value(obj):
-    """the single non-NULL string/char16 typed value of a compiled object:
-    (found, value)"""
+def quoted_values(obj):
+    """[(type, value)] of every non-NULL value that tomof() writes as quoted
+    literal(s)"""
     vals = []
 
     def add(v, typ):
-        if typ in ("string", "char16") and v is not None:
-            vals.append(v)
+        if typ in QUOTED_TYPES and v is not None:
+            vals.append((typ, v))
 
     def quals(qd):
         for q in qd.values():
@@ -868,9 +818,62 @@ def _literal_value(obj):
             add(p.value, p.type)
     elif isinstance(obj, CIMQualifierDeclaration):
         add(obj.value, obj.type)
-    if len(vals) == 1:
-        return True, vals[0]
-    return False, None
+    return vals
+
+
+def literal_source(v):
+    """the string that tomof() hands to mofstr() for one scalar value:
+    (kind, text)"""
+    if isinstance(v, str):
+        return "plain", v
+    if isinstance(v, CIMDateTime):
+        return "datetime", str(v)
+    if isinstance(v, CIMInstanceName):
+        return "reference", v.to_wbem_uri()
+    if isinstance(v, CIMInstance):
+        return "embedded", v.tomof()
+    return "other", None
+
+
+def single_literal(orig):
+    """If the object holds exactly ONE non-NULL value that is written as
+    quoted literal(s): (kind, [source text or None per element], is_array);
+    kind = string | char16 (the clause Literal.ArrivesAsDenoted applies) or
+    datetime | reference | embedded (diagnosis of the folding only)."""
+    vals = quoted_values(orig)
+    if len(vals) != 1:
+        return None
+    typ, v = vals[0]
+    items = v if isinstance(v, list) else [v]
+    kinds, texts = set(), []
+    for x in items:
+        if x is None:
+            texts.append(None)
+            continue
+        k, s = literal_source(x)
+        if s is None:
+            return None
+        kinds.add(k)
+        texts.append(s)
+    if not kinds or len(kinds) > 1:
+        return None
+    k = kinds.pop()
+    if k == "plain":
+        k = typ if typ in ("string", "char16") else None
+    if k is None:
+        return None
+    return k, texts, isinstance(v, list)
+
+
+def _find_compiled(conn, ns, orig):
+    if isinstance(orig, CIMClass):
+        return conn.classes[ns][orig.classname]
+    if isinstance(orig, CIMQualifierDeclaration):
+        return conn.qualifiers[ns][orig.name]
+    insts = conn.instances.get(ns, [])
+    if len(insts) != 1:
+        return "UNCLASSIFIED: %d instances compiled" % len(insts)
+    return insts[0]
 
 
 def run_obj(spec, comp):
@@ -890,15 +893,19 @@ def run_obj(spec, comp):
         info["text"] = None
         return ev, info
     info["text"] = text
-    lit = single_literal(spec)
+    lit = single_literal(orig)
     if lit is not None and any(x is not None for x in lit[1]):
-        q = '"' if lit[0] == "string" else "'"
+        q = "'" if lit[0] == "char16" else '"'
         try:
             flat = _region(orig.tomof(FLAT), q, lit[2])
         except Exception:  # noqa
             flat = ["U"]
-        ev["lit"] = {"has": True, "q": "Q" if q == '"' else "A",
-                     "elems": lit_elems(lit[1]),
+        ev["lit"] = {"has": True, "kind": lit[0],
+                     "clause": lit[0] in ("string", "char16"),
+                     "q": "Q" if q == '"' else "A",
+                     "elems": lit_elems([None if x is None else
+                                         classes_of_source(x)
+                                         for x in lit[1]]),
                      "out": _region(text, q, lit[2]), "flat": flat,
                      "gotok": False, "got": []}
     ok, ns, conn, err = comp.compile(text, list(b.qdecls.values()), b.classes)
@@ -909,10 +916,10 @@ def run_obj(spec, comp):
     cobj = _find_compiled(conn, ns, orig)
     info["compiled"] = repr(cobj)[:1500]
     ev["comp"] = elems_of(cobj, declflv)
-    if ev["lit"]["has"]:
-        found, v = _literal_value(cobj)
-        if found:
-            ev["lit"]["gotok"], ev["lit"]["got"] = got_elems(v)
+    if ev["lit"]["has"] and ev["lit"]["clause"]:
+        cv = quoted_values(cobj)
+        if len(cv) == 1:
+            ev["lit"]["gotok"], ev["lit"]["got"] = got_elems(cv[0][1])
     return ev, info
 
 
